@@ -23,7 +23,8 @@ RULE = ("one run = graph + 1-4 groups built from intended walks/sets in a random
         "lines, delivered in a scheduled order; distinct = distinct (style, walk shape, order) digests")
 PROBES = ["style_segments", "style_edges", "style_alternating", "style_mixed", "nested_plus", "nested_minus",
           "multiline_o", "multiline_u", "group_before_items", "reversed_edge_traversal", "noncontiguous",
-          "ambiguous", "single_edge_item", "set_with_path", "set_nested", "walk_len_ge4", "contradicting_tags"]
+          "ambiguous", "single_edge_item", "set_with_path", "set_nested", "walk_len_ge4", "contradicting_tags", "reader_during_delivery",
+          "early_answer", "early_error"]
 
 
 def edge_line(eid, a, oa, b, ob, seglen, rng):
@@ -260,7 +261,10 @@ def gen(streams, tier, i):
     from .c03 import keep_o_order
     perm = [all_lines.index(x) for x in order] if len(set(all_lines)) == len(all_lines) else list(range(len(all_lines)))
     perm = keep_o_order(all_lines, perm)
-    return {"cfg": {"vlevel": cfg.choice([0, 1, 1, 2, 3]), "order": mode, "conflict": conflict},
+    # a reader interleaved with the delivery: after these arrivals every group present is asked for its
+    # captured path / induced set (the answer then may be an error: the definition is incomplete)
+    peeks = sorted(set(sr.randrange(len(all_lines)) for _ in range(sr.choice([0, 0, 1, 2, 4])))) if all_lines else []
+    return {"cfg": {"vlevel": cfg.choice([0, 1, 1, 2, 3]), "order": mode, "conflict": conflict, "peeks": peeks},
             "lines": all_lines, "edges": [list(e) for e in edges], "groups": groups,
             "ops": [{"op": "order", "perm": perm}]}
 
@@ -308,7 +312,24 @@ def run(scn, st):
         if any(lines[i][0] in "OU" and p < first_s for p, i in enumerate(perm)):
             st.count("probe.group_before_items")
         w = World(st)
-        o = w.construct("incremental", ordered, vlevel=vlevel)
+        peeks = set(scn["cfg"].get("peeks", []))
+
+        def reader(gg, n):
+            if n not in peeks:
+                return
+            st.count("probe.reader_during_delivery")
+            for grp_line in list(gg.paths) + list(gg.sets):
+                for attr in (("captured_path", "captured_segments", "captured_edges") if grp_line.record_type == "O"
+                             else ("induced_set", "induced_segments_set", "induced_edges_set")):
+                    r = core.call(getattr, grp_line, attr)
+                    if r.ok:
+                        st.count("probe.early_answer")
+                    elif r.kind != "gfapy":
+                        raise core.Violation("early-query-foreign", "%s of %r during delivery raised %s: %s" %
+                                             (attr, str(grp_line), r.excname, str(r.exc)[:200]), exc=r.excname, frame=r.frame)
+                    else:
+                        st.count("probe.early_error")
+        o = w.construct("incremental", ordered, vlevel=vlevel, observer=reader if peeks else None)
         if scn["cfg"].get("conflict"):
             # two lines of one group give the same tag different values: the definition is contradictory
             st.count("probe.contradicting_tags")
